@@ -595,6 +595,17 @@ class Body:
 
     # ---- origins (backward slice)
     def origin_of_operand(self, op, depth=0):
+        top = not getattr(self, '_memo_active', False)
+        if top:
+            self._memo_active = True
+            self._origin_cache = {}
+        try:
+            return self._origin_of_operand(op, depth)
+        finally:
+            if top:
+                self._memo_active = False
+
+    def _origin_of_operand(self, op, depth=0):
         if 'k' in op:
             k = op['k']
             if 'fn' in k:
@@ -607,6 +618,17 @@ class Body:
         return self.origin_of_place(place, depth)
 
     def origin_of_place(self, place, depth=0):
+        top = not getattr(self, '_memo_active', False)
+        if top:
+            self._memo_active = True
+            self._origin_cache = {}
+        try:
+            return self._origin_of_place(place, depth)
+        finally:
+            if top:
+                self._memo_active = False
+
+    def _origin_of_place(self, place, depth=0):
         base = self.origin_of_local(place[0], depth)
         if len(place) == 1:
             return base
@@ -625,16 +647,25 @@ class Body:
         return Origin('place', base=base, proj=proj)
 
     def origin_of_local(self, l, depth=0):
-        key = l
-        if key in self._origin_cache:
-            return self._origin_cache[key]
-        if depth > 40:
-            return Origin('unknown')
-        # guard against cycles
-        self._origin_cache[key] = Origin('local', name=self.local_name(l), local=l)
-        o = self._origin_of_local(l, depth)
-        self._origin_cache[key] = o
-        return o
+        # Memoise per top-level query only: a placeholder handed out to break a
+        # cycle (loop-carried variables) must not leak into later queries.
+        top = not getattr(self, '_memo_active', False)
+        if top:
+            self._memo_active = True
+            self._origin_cache = {}
+        try:
+            key = l
+            if key in self._origin_cache:
+                return self._origin_cache[key]
+            if depth > 60:
+                return Origin('unknown')
+            self._origin_cache[key] = Origin('local', name=self.local_name(l), local=l)
+            o = self._origin_of_local(l, depth)
+            self._origin_cache[key] = o
+            return o
+        finally:
+            if top:
+                self._memo_active = False
 
     def _origin_of_local(self, l, depth):
         if 1 <= l <= self.argc:
